@@ -1020,6 +1020,29 @@ class Interp:
                 return Tup(outs) if not one_shot else Tup(outs)
             self.assign(g.target, self.elem_of(it, g.iter), inner, fn, node)
             return ListOf(self.eval(elt, inner, fn), one_shot=one_shot)
+        # several generators without conditions over fixed-length iterables: unrolled as nested loops (left generator outermost)
+        if all(not g.ifs for g in node.generators):
+            def rec(k, e):
+                if k == len(node.generators):
+                    return [self.eval(elt, e, fn)]
+                g = node.generators[k]
+                its = self.items_of(self.eval(g.iter, e, fn))
+                if its is None or len(its) == 0:
+                    return None
+                acc = []
+                for item in its:
+                    e2 = dict(e)
+                    self.assign(g.target, item, e2, fn, node)
+                    sub = rec(k + 1, e2)
+                    if sub is None:
+                        return None
+                    acc.extend(sub)
+                    if len(acc) > 64:
+                        return None
+                return acc
+            outs = rec(0, inner)
+            if outs is not None:
+                return Tup(outs)
         for g in node.generators:
             it = self.eval(g.iter, inner, fn)
             self.assign(g.target, self.elem_of(it, g.iter), inner, fn, node)
